@@ -124,7 +124,7 @@ def ops(tier):
 def shards(tier):
     sh = []
     for oi, (op, pub, sec) in enumerate(ops(tier)):
-        step = 8
+        step = 3        # small shards: the long traces (X25519, signing) are the critical path, so they are spread over all workers
         for build in (("ctvictim", "ctvictim32") if op in CURVE_OPS else ("ctvictim",)):
             for lo in range(1, len(sec), step):
                 sh.append(("shard", (oi, lo, min(len(sec), lo + step), build)))
